@@ -67,7 +67,40 @@ LabSkip(proto, n, cli) ==
      expect |-> [ok |-> TRUE, notsupported |-> FALSE, hops |-> [k \in 1..(n + 1) |-> [ttl |-> k, addr |-> "", dest |-> FALSE]]]]
 Extra == ({ Lab6(p, n, s, c) : p \in {"icmp", "udp"}, n \in {1, MaxN}, s \in {{}, {2}}, c \in BOOLEAN } \ { Lab6(p, 1, {2}, c) : p \in {"icmp", "udp"}, c \in BOOLEAN })
          \cup { LabSkip(p, MaxN, c) : p \in {"icmp", "udp"}, c \in BOOLEAN }
-ASSUME ndJsonSerialize(IOEnv.VT_OUT, SetToSeq(All \cup Extra)) /\ PrintT(<<"GEN", "C13", Cardinality(All \cup Extra), Cardinality(All \cup Extra)>>)
+---------------------------------------------------------------------------
+(* S02 (extra, not a listed property): the command line surface (cmd/root.go). A flag set maps to request parameters   *)
+(* with the published defaults; what the printed document shows of them (protocol, destination port, number of runs,  *)
+(* number of end-to-end probes, length of an unanswered path = max TTL) is compared as spec drift.                    *)
+CliDefaults == [proto |-> "udp", port |-> 33434, q |-> 3, e2e |-> 50, m |-> 30, timeout |-> 3000]
+Eff(f) == [k \in DOMAIN CliDefaults |-> IF k \in DOMAIN f THEN f[k] ELSE CliDefaults[k]]
+ShortName == [proto |-> "-P", port |-> "-p", q |-> "-q", e2e |-> "-Q", m |-> "-m", timeout |-> "--timeout"]
+LongName == [proto |-> "--proto", port |-> "--port", q |-> "--traceroute-queries", e2e |-> "--e2e-queries", m |-> "--max-ttl", timeout |-> "--timeout"]
+Order == <<"proto", "port", "q", "e2e", "m", "timeout">>
+RECURSIVE ArgsFrom(_, _, _)
+ArgsFrom(f, long, i) ==
+    IF i > Len(Order) THEN <<>>
+    ELSE (IF Order[i] \in DOMAIN f
+          THEN <<(IF long THEN LongName ELSE ShortName)[Order[i]], IF Order[i] = "proto" THEN f.proto ELSE ToString(f[Order[i]])>>
+          ELSE <<>>) \o ArgsFrom(f, long, i + 1)
+CliScen(name, f, long, target, extra) ==
+    LET e == Eff(f)
+        valid == e.proto \in {"udp", "tcp", "icmp"} /\ extra = <<>>
+        host == IF target = "dest" THEN DestAddr(1) ELSE "10.101.0.77"
+    IN [id |-> "S02/cli/" \o name \o (IF long THEN "/long" ELSE "/short"), label |-> "cli/" \o name, kind |-> "labcli", n |-> 1, silent |-> <<>>, port |-> "closed",
+        args |-> ArgsFrom(f, long, 1) \o extra \o (IF name = "no_target" THEN <<>> ELSE <<host>>),
+        expect_cli |-> [ok |-> valid /\ name # "no_target", protocol |-> e.proto, dport |-> IF e.proto = "icmp" THEN 0 ELSE e.port,
+                        runs |-> e.q, e2e |-> e.e2e, hoplen |-> IF target = "dest" THEN 2 ELSE e.m, dst |-> host]]
+CliAll == { CliScen("defaults", [timeout |-> 400], FALSE, "dest", <<>>) }
+          \cup { CliScen(nm[1], nm[2], l, nm[3], <<>>) : l \in BOOLEAN,
+                  nm \in { <<"icmp_q1_Q2", [proto |-> "icmp", q |-> 1, e2e |-> 2, timeout |-> 400], "dest">>,
+                           <<"tcp_p443_q2_Q1", [proto |-> "tcp", port |-> 443, q |-> 2, e2e |-> 1, timeout |-> 400], "dest">>,
+                           <<"udp_p53", [port |-> 53, q |-> 1, e2e |-> 0, timeout |-> 400], "dest">>,
+                           <<"m5_hole", [m |-> 5, q |-> 1, e2e |-> 0, timeout |-> 300], "hole">>,
+                           <<"default_m_hole", [q |-> 1, e2e |-> 0, timeout |-> 300], "hole">>,
+                           <<"icmp_m7_hole", [proto |-> "icmp", m |-> 7, q |-> 2, e2e |-> 0, timeout |-> 300], "hole">>,
+                           <<"sctp", [proto |-> "sctp", q |-> 1, e2e |-> 0], "dest">> } }
+          \cup { CliScen("no_target", [q |-> 1], FALSE, "dest", <<>>), CliScen("unknown_flag", [q |-> 1], FALSE, "dest", <<"--no-such-flag">>) }
+ASSUME ndJsonSerialize(IOEnv.VT_OUT, SetToSeq(All \cup Extra \cup CliAll)) /\ PrintT(<<"GEN", "C13", Cardinality(All \cup Extra \cup CliAll), Cardinality(All \cup Extra \cup CliAll)>>)
 VARIABLE x
 Init == x = 0
 Next == UNCHANGED x
